@@ -111,16 +111,17 @@ function printRef(e) {
     case 'mem': return 'GET(' + printRef(e.o) + ', ' + JSON.stringify(e.name) + ')'
     case 'idx': return 'GET(' + printRef(e.o) + ', ' + printRef(e.i) + ')'
     case 'call': return 'CALL(' + printRef(e.f) + ', [' + e.args.map(printRef).join(', ') + '])'
-    case 'arr': return '[' + e.items.map((it) => (it.hole ? '' : it.spread ? '...' + printRef(it.spread) : printRef(it))).join(', ') + (e.items.length && e.items[e.items.length - 1].hole ? ',' : '') + ']'
+    case 'arr': return '[' + e.items.map((it) => (it.hole ? '' : it.spread ? '...SPREAD(' + printRef(it.spread) + ')' : printRef(it))).join(', ') + (e.items.length && e.items[e.items.length - 1].hole ? ',' : '') + ']'
     case 'obj': return '({' + e.fields.map((f) => (f.spread ? '...' + printRef(f.spread) : f.short ? f.short + ': $.' + f.short : f.key + ': ' + printRef(f.value))).join(', ') + '})'
     default: throw new Error('bad node ' + e.k)
   }
 }
-const REF_PRELUDE = 'const GET = (o, k) => (o === null || o === undefined ? undefined : o[k]); const CALL = (f, args) => (typeof f === "function" ? (0, f)(...args) : undefined);'
+// SPREAD only records that a non-array value was spread (the known lenient-spread deviation is identified by that)
+const REF_PRELUDE = 'const SPREAD = (x) => { if (!Array.isArray(x)) FLAGS.nonArraySpread = true; return x }; const GET = (o, k) => (o === null || o === undefined ? undefined : o[k]); const CALL = (f, args) => (typeof f === "function" ? (0, f)(...args) : undefined);'
 
 function compileRef(e) {
   // eslint-disable-next-line no-new-func
-  return new Function('$', REF_PRELUDE + ' return ' + printRef(e))
+  return new Function('$', 'FLAGS', REF_PRELUDE + ' return ' + printRef(e))
 }
 
 function freeNames(e, out = new Set()) {
